@@ -98,6 +98,9 @@ func externAssigns(vc *VC, key string, cc *ssa.CallCommon) (map[string]string, b
 	case "bytes.Equal", "errors.New", "fmt.Errorf", "fmt.Sprintf", "fmt.Sprint", "strings.Compare":
 		return map[string]string{}, true
 	}
+	if strings.HasPrefix(key, "math/big.") {
+		return map[string]string{bigComp: bigSort}, true
+	}
 	return nil, false
 }
 
